@@ -43,6 +43,9 @@ var exStrings = []exStr{
 	{`"\b\f\n\r\t"`, "\b\f\n\r\t"}, {"\"raw \n line break\"", "raw \n line break"}, {"\"tab\there\"", "tab\there"},
 	{`"ünï ✓ 日本"`, "ünï ✓ 日本"}, {`"{ , = } [ ] ."`, "{ , = } [ ] ."}, {`"//comment?"`, "//comment?"}, {`"'single'"`, "'single'"},
 	{`"${prop}"`, "${prop}"}, {`"\\\""`, `\"`},
+	// an escaped backslash followed by a letter that would itself be an escape
+	{`"C:\\new\\table\\report.log"`, `C:\new\table\report.log`}, {`"\\n"`, `\n`}, {`"\\\\"`, `\\`}, {`"\\b\\f\\r\\/"`, `\b\f\r\/`},
+	{`"\\\n"`, "\\\n"},
 }
 
 func cmdExprParse(f hx.Flags, r *hx.Result) {
